@@ -454,7 +454,7 @@ Qed.
 
 (* ---- the two levels do not disturb each other: each invariant only looks at a view of the heap ---- *)
 Inductive cview :=
-| VT (cols idxs : list oid) | VC (o : option oid) (ty : coltype) | VI (o : option oid) (subs : option (list subject))
+| VT (cols idxs : list oid) | VC (o : option oid) (ty : coltype) (nm : option pystr) | VI (o : option oid) (subs : option (list subject))
 | VR (c1 c2 : option (list oid)) | VG (items : list oid) | VO.
 (* besides the children lists and owner pointers the table-level invariant reads, the view carries what never
    changes after construction and what the linking statements of C05 are about: a column's type, the endpoint
@@ -462,7 +462,7 @@ Inductive cview :=
    (they are still being filled in while it is detached) *)
 Definition cview_of (ob : obj) : cview :=
   match ob with
-  | OTable tb => VT (t_columns tb) (t_indexes tb) | OColumn c => VC (c_table c) (c_type c)
+  | OTable tb => VT (t_columns tb) (t_indexes tb) | OColumn c => VC (c_table c) (c_type c) (c_name c)
   | OIndex i => VI (i_table i) (match i_table i with Some _ => i_subjects i | None => None end)
   | OReference r => VR (r_col1 r) (r_col2 r) | OGroup g => VG (g_items g)
   | _ => VO
